@@ -122,6 +122,24 @@ def _parse_args(message, harness):
     return d
 
 
+def _no_optional_shortcircuit():
+    """CrossHair may, with some probability, skip the body of contract-bearing library
+    functions (repr, hash, ...) and return a fresh symbolic value that is reconciled later.
+    That only adds forks and aborted paths here (everything we call must really run), so
+    optional short-circuiting is switched off; mandatory cases (specs_complete) are kept."""
+    import crosshair.core as core
+    if getattr(core.consider_shortcircuit, '_vpatched', False):
+        return
+    orig = core.consider_shortcircuit
+
+    def consider(fn, sig, bound, subconditions, allow_interpretation):
+        if allow_interpretation:
+            return None
+        return orig(fn, sig, bound, subconditions, allow_interpretation)
+    consider._vpatched = True
+    core.consider_shortcircuit = consider
+
+
 def run_condition(harness, post="_ != 2", timeout=60.0, per_path_timeout=None):
     """Run CrossHair on the harness with the given postcondition.
     Returns dict(state, message, args, paths, solver_s, solver_calls, cpu_s, wall_s).
@@ -129,6 +147,7 @@ def run_condition(harness, post="_ != 2", timeout=60.0, per_path_timeout=None):
     from crosshair.core_and_libs import analyze_function, run_checkables
     from crosshair.options import AnalysisOptionSet, AnalysisKind
     _instrument_solver()
+    _no_optional_shortcircuit()
     fn = harness.fn(post)
     stats = collections.Counter()
     kw = dict(per_condition_timeout=float(timeout), report_all=True,
